@@ -63,13 +63,14 @@ Print Assumptions C12_update_reads_assigned_column_refuted.
    RewriteColumns) yields exactly the SQL MERGE written independently in `sql_merge`: same rows as a multiset,
    same inserted/updated/deleted counts, or the same error (EDup: more than one source row would update one target
    row; EFail: WhenMatched::Fail hit) - in which case no new table exists.  For all tables, all sources, all
-   well-formed settings outside the four known-finding classes.  The statement does not mention `m_indexed`
+   well-formed settings outside the five known-finding classes.  The statement does not mention `m_indexed`
    on the SQL side: the result is independent of whether the key is indexed. *)
 Theorem C12_merge_is_sql_merge : forall st ct src,
   wf_settings st = true ->
   Known_C12_null_key_source_rows_skipped st src = false ->
   Known_C12_null_key_target_rows_kept st (abs ct) = false ->
   Known_C12_fail_off_fast_path st = false ->
+  Known_C12_key_columns_not_first st = false ->
   Known_C12_update_if_partial_schema_panics st = false ->
   match c_merge st ct src, sql_merge st (abs ct) src with
   | inl ct', inl r => Permutation (abs ct') (r_rows r) /\ merge_stats st ct src = r_stats r
@@ -77,8 +78,8 @@ Theorem C12_merge_is_sql_merge : forall st ct src,
   | _, _ => False
   end.
 Proof.
-  intros st ct src WF K1 K2 K3 K4. rewrite <- (abs_arows ct) in K2 |- *.
-  pose proof (merge_is_sql_merge st (arows ct) src WF (arows_nodup ct) K1 K2 K3 K4) as M.
+  intros st ct src WF K1 K2 K3 K5 K4. rewrite <- (abs_arows ct) in K2 |- *.
+  pose proof (merge_is_sql_merge st (arows ct) src WF (arows_nodup ct) K1 K2 K3 K5 K4) as M.
   pose proof (c_merge_abs st ct src) as C. unfold merge_stats.
   destruct (c_merge st ct src) as [ct'|e]; destruct (a_merge st (arows ct) src) as [r|e']; try contradiction;
     destruct (sql_merge st (map snd (arows ct)) src) as [r2|e2]; cbn [mres_equiv] in M; try contradiction.
@@ -93,6 +94,7 @@ Theorem C12_merge_abstract : forall st tgt src,
   Known_C12_null_key_source_rows_skipped st src = false ->
   Known_C12_null_key_target_rows_kept st (map snd tgt) = false ->
   Known_C12_fail_off_fast_path st = false ->
+  Known_C12_key_columns_not_first st = false ->
   Known_C12_update_if_partial_schema_panics st = false ->
   mres_equiv (a_merge st tgt src) (sql_merge st (map snd tgt) src).
 Proof. exact merge_is_sql_merge. Qed.
@@ -163,13 +165,13 @@ Definition tgt0 : ctable := [[Some [Some 1%Z; Some 10%Z]; Some [Some 2%Z; Some 2
 Theorem C12_null_key_source_rows_skipped_refuted : exists st ct src,
   wf_settings st = true /\ Known_C12_null_key_source_rows_skipped st src = true /\
   Known_C12_null_key_target_rows_kept st (abs ct) = false /\ Known_C12_fail_off_fast_path st = false /\
-  Known_C12_update_if_partial_schema_panics st = false /\
+  Known_C12_update_if_partial_schema_panics st = false /\ Known_C12_key_columns_not_first st = false /\
   exists ct' r, c_merge st ct src = inl ct' /\ sql_merge st (abs ct) src = inl r /\
                 length (abs ct') = 4%nat /\ length (r_rows r) = 6%nat.
 Proof.
   exists (st0 WmUpdateAll true NsKeep false), tgt0,
          [[Some 1%Z; Some 100%Z]; [None; Some 200%Z]; [Some 7%Z; Some 700%Z]; [None; Some 201%Z]].
-  do 5 (split; [reflexivity|]). eexists. eexists. split; [vm_compute; reflexivity|]. split; [vm_compute; reflexivity|].
+  do 6 (split; [reflexivity|]). eexists. eexists. split; [vm_compute; reflexivity|]. split; [vm_compute; reflexivity|].
   split; reflexivity.
 Qed.
 Print Assumptions C12_null_key_source_rows_skipped_refuted.
@@ -178,12 +180,12 @@ Print Assumptions C12_null_key_source_rows_skipped_refuted.
 Theorem C12_null_key_target_rows_kept_refuted : exists st ct src,
   wf_settings st = true /\ Known_C12_null_key_target_rows_kept st (abs ct) = true /\
   Known_C12_null_key_source_rows_skipped st src = false /\ Known_C12_fail_off_fast_path st = false /\
-  Known_C12_update_if_partial_schema_panics st = false /\
+  Known_C12_update_if_partial_schema_panics st = false /\ Known_C12_key_columns_not_first st = false /\
   exists ct' r, c_merge st ct src = inl ct' /\ sql_merge st (abs ct) src = inl r /\
                 length (abs ct') = 2%nat /\ length (r_rows r) = 1%nat.
 Proof.
   exists (st0 WmUpdateAll false NsDelete false), tgt0, [[Some 1%Z; Some 100%Z]].
-  do 5 (split; [reflexivity|]). eexists. eexists. split; [vm_compute; reflexivity|]. split; [vm_compute; reflexivity|].
+  do 6 (split; [reflexivity|]). eexists. eexists. split; [vm_compute; reflexivity|]. split; [vm_compute; reflexivity|].
   split; reflexivity.
 Qed.
 Print Assumptions C12_null_key_target_rows_kept_refuted.
@@ -192,12 +194,12 @@ Print Assumptions C12_null_key_target_rows_kept_refuted.
 Theorem C12_fail_off_fast_path_refuted : exists st ct src,
   wf_settings st = true /\ Known_C12_fail_off_fast_path st = true /\
   Known_C12_null_key_source_rows_skipped st src = false /\ Known_C12_null_key_target_rows_kept st (abs ct) = false /\
-  Known_C12_update_if_partial_schema_panics st = false /\
+  Known_C12_update_if_partial_schema_panics st = false /\ Known_C12_key_columns_not_first st = false /\
   (exists ct', c_merge st ct src = inl ct') /\ sql_merge st (abs ct) src = inr EFail.
 Proof.
   exists (st0 WmFail true NsKeep true), [[Some [Some 1%Z; Some 10%Z]; Some [Some 2%Z; Some 20%Z]]],
          [[Some 1%Z; Some 100%Z]; [Some 9%Z; Some 900%Z]].
-  do 5 (split; [reflexivity|]). split; [eexists; vm_compute; reflexivity|]. vm_compute. reflexivity.
+  do 6 (split; [reflexivity|]). split; [eexists; vm_compute; reflexivity|]. vm_compute. reflexivity.
 Qed.
 Print Assumptions C12_fail_off_fast_path_refuted.
 
@@ -205,16 +207,32 @@ Print Assumptions C12_fail_off_fast_path_refuted.
 Theorem C12_update_if_partial_schema_panics_refuted : exists st ct src,
   wf_settings st = true /\ Known_C12_update_if_partial_schema_panics st = true /\
   Known_C12_null_key_source_rows_skipped st src = false /\ Known_C12_null_key_target_rows_kept st (abs ct) = false /\
-  Known_C12_fail_off_fast_path st = false /\
+  Known_C12_fail_off_fast_path st = false /\ Known_C12_key_columns_not_first st = false /\
   c_merge st ct src = inr EPanic /\ exists r, sql_merge st (abs ct) src = inl r.
 Proof.
   exists {| m_on := [O]; m_scols := [O; 1%nat]; m_ncols := 3%nat;
             m_wm := WmUpdateIf (BCmp CGt (VCol 1) (VCol 4)); m_ins := true; m_ns := NsKeep; m_indexed := false |},
          [[Some [Some 1%Z; Some 10%Z; Some 20%Z]; Some [Some 2%Z; Some 30%Z; Some 40%Z]]],
          [[Some 1%Z; Some 100%Z]; [Some 9%Z; Some 900%Z]].
-  do 5 (split; [reflexivity|]). split; [vm_compute; reflexivity|]. eexists. vm_compute. reflexivity.
+  do 6 (split; [reflexivity|]). split; [vm_compute; reflexivity|]. eexists. vm_compute. reflexivity.
 Qed.
 Print Assumptions C12_update_if_partial_schema_panics_refuted.
+
+(* the key is the SECOND column of the source schema: Merger::extract_selections tests the first column instead.
+   Table (a,k) = (NULL,1) (5,2), on k, DoNothing + InsertAll, source (NULL,7) (3,8): the new key 7 is not inserted *)
+Theorem C12_key_columns_not_first_refuted : exists st ct src,
+  wf_settings st = true /\ Known_C12_key_columns_not_first st = true /\
+  Known_C12_null_key_source_rows_skipped st src = false /\ Known_C12_null_key_target_rows_kept st (abs ct) = false /\
+  Known_C12_fail_off_fast_path st = false /\ Known_C12_update_if_partial_schema_panics st = false /\
+  exists ct' r, c_merge st ct src = inl ct' /\ sql_merge st (abs ct) src = inl r /\
+                length (abs ct') = 3%nat /\ length (r_rows r) = 4%nat.
+Proof.
+  exists {| m_on := [1%nat]; m_scols := [O; 1%nat]; m_ncols := 2%nat; m_wm := WmDoNothing; m_ins := true; m_ns := NsKeep; m_indexed := false |},
+         [[Some [None; Some 1%Z]; Some [Some 5%Z; Some 2%Z]]], [[None; Some 7%Z]; [Some 3%Z; Some 8%Z]].
+  do 6 (split; [reflexivity|]). eexists. eexists. split; [vm_compute; reflexivity|]. split; [vm_compute; reflexivity|].
+  split; reflexivity.
+Qed.
+Print Assumptions C12_key_columns_not_first_refuted.
 
 (* ------------------------------------------------------------------ non-vacuity and sanity sweeps (tests, not theorems) *)
 (* every hypothesis of C12_merge_is_sql_merge holds on a merge that updates, inserts and deletes:
@@ -225,7 +243,7 @@ Example C12_merge_nonvacuous :
   let src := [[Some 1%Z; Some 100%Z]; [Some 7%Z; Some 700%Z]; [Some 7%Z; Some 701%Z]] in
   wf_settings st = true /\ Known_C12_null_key_source_rows_skipped st src = false /\
   Known_C12_null_key_target_rows_kept st (abs ct) = false /\ Known_C12_fail_off_fast_path st = false /\
-  Known_C12_update_if_partial_schema_panics st = false /\
+  Known_C12_update_if_partial_schema_panics st = false /\ Known_C12_key_columns_not_first st = false /\
   match c_merge st ct src with
   | inl ct' => same_rows (abs ct') [[Some 1%Z; Some 100%Z]; [Some 2%Z; Some 20%Z]; [Some 7%Z; Some 700%Z]; [Some 7%Z; Some 701%Z]] = true
                /\ merge_stats st ct src = (2, 1, 1)%N /\ shape ct' = [(2, 1); (3, 0)]%N
@@ -240,8 +258,8 @@ Example C12_duplicate_match_rejected :
 Proof. split; vm_compute; reflexivity. Qed.
 
 (* exhaustive small-universe sweep of the merge statement (boolean form): keys in {NULL,1,2}, tables and sources of
-   at most 2 rows, every setting (UpdateIf source.x > target.x, DeleteIf x = 0), indexed or not, full or key-only
-   source schema: outside the classes model and SQL agree, 13*13*96 = 16224 merges *)
+   at most 2 rows, every setting (UpdateIf source.x > target.x, DeleteIf x = 0), indexed or not, full, key-only or permuted
+   source schema: outside the classes model and SQL agree, 13*13*144 = 24336 merges (source schemas (k,x), (k), (x,k)) *)
 Definition mres_eqb (a b : mresult + merr) : bool :=
   match a, b with
   | inl r1, inl r2 => same_rows (r_rows r1) (r_rows r2)
@@ -255,7 +273,7 @@ Definition lists_le2 {A} (u : list A) : list (list A) :=
 Definition sweep_settings : list msettings :=
   flat_map (fun wm => flat_map (fun ins => flat_map (fun ns => flat_map (fun idx => map (fun scols =>
     {| m_on := [O]; m_scols := scols; m_ncols := 2%nat; m_wm := wm; m_ins := ins; m_ns := ns; m_indexed := idx |})
-    [[O; 1%nat]; [O]]) [false; true])
+    [[O; 1%nat]; [O]; [1%nat; O]]) [false; true])
     [NsKeep; NsDelete; NsDeleteIf (BCmp CEq (VCol 1) (VLit (Some 0%Z)))]) [false; true])
     [WmUpdateAll; WmUpdateIf (BCmp CGt (VCol 1) (VCol 3)); WmDoNothing; WmFail].
 Example C12_merge_sweep :
@@ -263,7 +281,7 @@ Example C12_merge_sweep :
     let src := map (fun s => map (fun c => nth c s None) (m_scols st)) src0 in
     let ct := [map Some tgt] in
     negb (wf_settings st) || Known_C12_null_key_source_rows_skipped st src || Known_C12_null_key_target_rows_kept st tgt
-    || Known_C12_fail_off_fast_path st || Known_C12_update_if_partial_schema_panics st
+    || Known_C12_fail_off_fast_path st || Known_C12_update_if_partial_schema_panics st || Known_C12_key_columns_not_first st
     || mres_eqb (a_merge st (arows ct) src) (sql_merge st tgt src))
     (lists_le2 sweep_rows)) (lists_le2 sweep_rows)) sweep_settings = true.
 Proof. vm_compute. reflexivity. Qed.
